@@ -86,6 +86,7 @@ type Header struct {
 	Paths [][]string        `json:"paths"`
 	Dirs  [][]string        `json:"dirs"`
 	Vals  map[string]string `json:"vals"`
+	Locks bool              `json:"locks"` // locks are held (by one more instance) on names around the keys during the whole walk
 }
 
 type FileOp struct {
@@ -111,6 +112,28 @@ func runFiles(kind string, ninst int) {
 	verifkit.EachCase(func(i int, raw json.RawMessage) {
 		if i == 0 {
 			h = verifkit.Decode[Header](raw)
+			if h.Locks { // another instance holds locks on every key name, every directory name and a name inside every directory
+				locker, err := acme.NewChordStorage(zap.NewNop(), kv, acme.StorageConfig{RetryInterval: 100 * time.Millisecond, LeaseTTL: 10 * time.Minute})
+				if err != nil {
+					panic(err)
+				}
+				names := map[string]bool{}
+				for _, p := range h.Paths {
+					names[strings.Join(p, "/")] = true
+				}
+				for _, d := range h.Dirs {
+					if len(d) > 0 {
+						names[strings.Join(d, "/")] = true
+						names[strings.Join(d, "/")+"/held.lock"] = true
+					}
+				}
+				names["toplevel.lock"] = true
+				for n := range names {
+					if err := locker.Lock(ctx, n); err != nil {
+						panic("lock " + n + ": " + err.Error())
+					}
+				}
+			}
 			verifkit.Answer(i, map[string]any{"header": true})
 			return
 		}
